@@ -4,7 +4,7 @@ import json
 import os
 
 HERE = os.path.dirname(os.path.dirname(os.path.abspath(__file__)))
-REPO_HOOK_COMMITS = ["dd1417b"]
+REPO_HOOK_COMMITS = ["dd1417b", "4e2c04a"]
 
 # id -> (technique, level text, level note, design section)
 CHECKS = {
@@ -84,6 +84,12 @@ CHECKS = {
             "All strings over the 18 risky units up to length 5 (6 in thorough) in four widths, random strings with entity "
             "look-alikes near the end, and payloads pushed through each printing path isolated by sentinels; escape on/off builds.",
             "longer strings are sampled", "3/C03"),
+    "C01": ("sanitizer monitoring (ASan + UBSan subset, SIGFPE, guard pages, exception catch-all, CPU watchdog, ledger, exact-fit hook) of generated, truncated, mutated and hostile templates against a pool of value trees",
+            "Hundreds of thousands of renders per run: grammar-derived templates with every tag kind, all/40 prefixes, 40 "
+            "mutations, token soups, hostile seeds and the narrow-field family, four character widths, three SIMD builds, "
+            "escape on/off, hooks on/off, cached and uncached, in exact-size or guard-page-backed read-only buffers; deepest "
+            "nesting also on the default stack without instrumentation.",
+            "only executed paths; red-zone tools miss far and intra-object overflows; templates <= 4 KiB except the narrow family", "3/C01"),
 }
 
 PENDING = {}
